@@ -146,6 +146,27 @@ pub fn observe_text(o: &mut Outcome, case: &Value, text: &str, feats: &[String],
     if let Err(m) = guarded("lossless::Paragraph::from_str", || deb822_lossless::Paragraph::from_str(text).map(|p| p.to_string())) {
         o.v("C02", "total", "lossless::Paragraph::from_str", "panic", feats, text, m);
     }
+    // ---- file-based entry points (every 4th text: they cost a file each)
+    if conc::hash64(text) % 4 == 0 {
+        let path = std::env::temp_dir().join(format!("verif-deb822-{}.txt", std::process::id()));
+        if std::fs::write(&path, text.as_bytes()).is_ok() {
+            match guarded("Deb822::from_file", || Deb822::from_file(&path)) {
+                Err(m) => o.v("C02", "total", "Deb822::from_file", "panic", feats, text, m),
+                Ok(r) => {
+                    let ok = match &r { Ok(d) => errs.is_empty() && d.to_string() == text, Err(_) => !errs.is_empty() };
+                    if !ok { o.v("C01", "read_eq", "Deb822::from_file", "mismatch", feats, text, format!("from_file ok={} printed {:?}", r.is_ok(), r.as_ref().ok().map(|d| d.to_string()))); }
+                }
+            }
+            match guarded("Deb822::from_file_relaxed", || Deb822::from_file_relaxed(&path)) {
+                Err(m) => o.v("C02", "total", "Deb822::from_file_relaxed", "panic", feats, text, m),
+                Ok(r) => {
+                    let ok = match &r { Ok((d, e)) => d.to_string() == text && e.is_empty() == errs.is_empty(), Err(_) => false };
+                    if !ok { o.v("C01", "read_eq", "Deb822::from_file_relaxed", "mismatch", feats, text, String::new()); }
+                }
+            }
+            let _ = std::fs::remove_file(&path);
+        }
+    }
     let llc = real_ll_content(&doc);
     // ---- lossy
     let lossy = guarded("lossy::Deb822::from_str", || deb822_lossless::lossy::Deb822::from_str(text));
@@ -162,6 +183,14 @@ pub fn observe_text(o: &mut Outcome, case: &Value, text: &str, feats: &[String],
         }
         Ok(Ok(d)) => { lossy_status = "ok"; lyc = real_lossy_content(d); }
         Ok(Err(_)) => { lossy_status = "err"; }
+    }
+    // the lossy reader's Read-based entry point reads what its from_str reads
+    match guarded("lossy::Deb822::from_reader", || deb822_lossless::lossy::Deb822::from_reader(text.as_bytes())) {
+        Err(m) => o.v("C02", "total", "lossy::Deb822::from_reader", "panic", feats, text, m),
+        Ok(r) => {
+            let same = match (&r, &lossy) { (Ok(a), Ok(Ok(b))) => real_lossy_content(a) == real_lossy_content(b), (Err(_), Ok(Err(_))) => true, (_, Err(_)) => true, _ => false };
+            if !same { o.v("C06", "agree", "lossy::Deb822::from_reader", "mismatch", feats, text, format!("from_reader ok={} from_str ok={}", r.is_ok(), matches!(&lossy, Ok(Ok(_))))); }
+        }
     }
     if errs.is_empty() && lossy_status == "ok" {
         o.count("both_accept");
